@@ -4,7 +4,7 @@ WT=$1; PROP=$2; TIER=${3:-quick}
 export GOFLAGS=-mod=mod GOPROXY=off GOSUMDB=off
 cd $WT || exit 2
 CMD=$(python3 -c "import json;print(json.load(open('SEED/meta.json'))['demo_cmd'])")
-CMD=$(echo "$CMD" | sed 's/export GOFLAGS=[^;]*;//')
+CMD=$(echo "$CMD" | sed -e 's/export GOFLAGS=[^;]*;//' -e "s#<worktree>#$WT#g" -e 's/  *#.*$//')
 echo "== demo with patch (expect FAIL): $CMD"
 ( eval "$CMD" ) > /tmp/seed_demo_with.log 2>&1; echo "rc=$? $(grep -cE '^--- FAIL' /tmp/seed_demo_with.log) FAIL lines"
 git apply -R SEED/patch.diff || { echo "cannot revert patch"; exit 2; }
